@@ -26,6 +26,7 @@ type Clause struct {
 	Panics bool // requires whose violation is a panic of the callee (nopanic obligation at call sites)
 	Ground bool // prove from the ground (quantifier-free) part of the assumptions only
 	All    bool // hint that must be expressible and hold at every return site
+	Apply  string // hint only: "lemma with x = e, ...": a lemma instance assumed at the return sites (terms may name locals)
 	Known  string
 }
 
@@ -33,6 +34,7 @@ type LoopSpec struct {
 	Invariants []*Clause
 	Modifies   []string
 	Preserves  []string
+	Applies    []string // lemma instances assumed at the loop head, terms evaluated in the loop-head state
 }
 
 type Contract struct {
@@ -358,6 +360,11 @@ func parseContractFile(path string, pkgPath string) ([]*Contract, error) {
 		case "iterates":
 			cur.Iterates = true
 		case "hint":
+			if strings.HasPrefix(rest, "apply ") {
+				tr, _ := parseSpecExpr("true")
+				cur.Hints = append(cur.Hints, &Clause{Kind: "hint", Label: fmt.Sprintf("lemma_instance_%d", len(cur.Hints)), Src: rest, Expr: tr, Apply: strings.TrimSpace(rest[6:])})
+				continue
+			}
 			c, err := parseClause("hint", rest)
 			if err != nil {
 				return nil, fail(err)
@@ -436,6 +443,8 @@ func parseContractFile(path string, pkgPath string) ([]*Contract, error) {
 						ls.Preserves = append(ls.Preserves, m)
 					}
 				}
+			case "apply":
+				ls.Applies = append(ls.Applies, after)
 			default:
 				return nil, fail(fmt.Errorf("unknown loop clause %q", f[1]))
 			}
